@@ -1333,7 +1333,9 @@ func (h *Hashgraph) ProcessSigPool() error {
 				"index": bs.Index,
 				"msg":   err,
 			}).Error("Verifying Block signature")
-			return err
+			// a malformed signature can never become valid; skip it instead of
+			// failing every subsequent sync
+			continue
 		}
 		if !valid {
 			bytesBlock, _ := block.Marshal()
